@@ -46,7 +46,7 @@ OkGroups ==
     G(<<"-x", "time">>, [k |-> "axis", v |-> "time"]), G(<<"-x", "location">>, [k |-> "axis", v |-> "location"]), G(<<"-x", "no">>, [k |-> "axis", v |-> "no"]),
     G(<<"-x", "month">>, [k |-> "axis", v |-> "month"]), G(<<"-x", "leadtimeday">>, [k |-> "axis", v |-> "leadtimeday"]),
     G(<<"-agg", "max">>, [k |-> "agg", v |-> "max"]), G(<<"-agg", "median">>, [k |-> "agg", v |-> "median"]),
-    G(<<"-r", "3">>, [k |-> "r", v |-> R(3)]), G(<<"-b", "below=">>, [k |-> "b", v |-> "below="]),
+    G(<<"-r", "3">>, [k |-> "r", v |-> R(3)]), G(<<"-b", "below=">>, [k |-> "b", v |-> "below="]), G(<<"-b", "above=">>, [k |-> "b", v |-> "above="]), G(<<"-b", "below">>, [k |-> "b", v |-> "below"]),
     G(<<"-t", "1325376000,1325462400">>, Opt("t", {TimePool[1], TimePool[3]})),
     G(<<"-d", "20120101:20120102">>, Opt("d", {20120101, 20120102})), G(<<"-d", "20120201">>, Opt("d", {20120201})),
     G(<<"-tod", "0">>, Opt("tod", {0})), G(<<"-tod", "6">>, Opt("tod", {6})),
